@@ -641,23 +641,27 @@ def call_arguments(fdef, call, names, base=PEval):
             return super().ex(node, env)
     H().run(fdef)
     out = {}
+
+    def merge(alts, depth):
+        vals = []
+        for _c, v in alts:
+            if not any(same(v, w) for w in vals):
+                vals.append(v)
+        if len(vals) == 1:
+            return vals[0]
+        withc = [a for a in alts if len(a[0]) > depth]
+        if len(withc) != len(alts):
+            return ('call', 'alt', tuple(vals))
+        c0 = alts[0][0][depth][0]
+        if not all(show(a[0][depth][0]) == show(c0) for a in alts):
+            return ('call', 'alt', tuple(vals))
+        t = [a for a in alts if a[0][depth][1]]
+        f = [a for a in alts if not a[0][depth][1]]
+        if not t or not f:
+            return merge(alts, depth + 1)
+        return ('where', c0, merge(t, depth + 1), merge(f, depth + 1))
     for nm in {k for _, v in seen for k in v}:
-        alts = []
-        for conds, vals in seen:
-            if nm in vals and not any(same(vals[nm], a[1]) for a in alts):
-                alts.append((conds, vals[nm]))
-        if len(alts) == 1:
-            out[nm] = alts[0][1]
-        elif len(alts) == 2:
-            c1, c2 = alts[0][0], alts[1][0]
-            diff = [(a, b) for a, b in zip(c1, c2) if show(a[0]) == show(b[0]) and a[1] != b[1]]
-            if diff:
-                cond, t = diff[0][0]
-                out[nm] = ('where', cond, alts[0][1], alts[1][1]) if t else ('where', cond, alts[1][1], alts[0][1])
-            else:
-                out[nm] = ('call', 'alt', tuple(a[1] for a in alts))
-        else:
-            out[nm] = ('call', 'alt', tuple(a[1] for a in alts))
+        out[nm] = merge([(c, v[nm]) for c, v in seen if nm in v], 0)
     return out
 
 
